@@ -130,7 +130,14 @@ impl AbsKytea {
     }
 
     /// a trie over the keys: states in pre-order (children by ascending character), one entry per key
-    fn put_dictionary(&self, out: &mut Vec<u8>, n_dicts: u8, keys: &[String], mut put_entry: impl FnMut(&mut Vec<u8>, usize)) {
+    fn put_dictionary(&self, out: &mut Vec<u8>, n_dicts: u8, keys: &[String], put_entry: impl FnMut(&mut Vec<u8>, usize)) {
+        self.put_dictionary_ac(out, n_dicts, keys, false, put_entry)
+    }
+
+    /// `inherit`: as in files written by KyTea itself, a state's output list also carries the entries of the proper
+    /// suffixes of its string that are keys (after its own entry, longest first), and failure links are filled in;
+    /// the conversion must list a state as an item only when it is a branch (its own entry), never for inherited outputs
+    fn put_dictionary_ac(&self, out: &mut Vec<u8>, n_dicts: u8, keys: &[String], inherit: bool, mut put_entry: impl FnMut(&mut Vec<u8>, usize)) {
         out.push(n_dicts);
         if keys.is_empty() {
             out.extend(0u32.to_le_bytes());
@@ -141,6 +148,7 @@ impl AbsKytea {
         struct Node {
             children: BTreeMap<char, usize>,
             entry: Option<usize>,
+            text: Vec<char>,
         }
         let mut nodes = vec![Node::default()];
         for (ei, k) in keys.iter().enumerate() {
@@ -149,7 +157,9 @@ impl AbsKytea {
                 let next = match nodes[cur].children.get(&c) {
                     Some(&n) => n,
                     None => {
-                        nodes.push(Node::default());
+                        let mut text = nodes[cur].text.clone();
+                        text.push(c);
+                        nodes.push(Node { text, ..Default::default() });
                         let n = nodes.len() - 1;
                         nodes[cur].children.insert(c, n);
                         n
@@ -160,7 +170,40 @@ impl AbsKytea {
             nodes[cur].entry = Some(ei);
         }
         out.extend((nodes.len() as u32).to_le_bytes());
+        let key_chars: Vec<Vec<char>> = keys.iter().map(|k| k.chars().collect()).collect();
+        let texts: Vec<Vec<char>> = nodes.iter().map(|n| n.text.clone()).collect();
         for node in &nodes {
+            // inherited outputs and failure link (longest proper suffix that is a state)
+            let mut inherited: Vec<u32> = vec![];
+            let mut failure = 0u32;
+            if inherit {
+                for start in 1..node.text.len() {
+                    let suf = &node.text[start..];
+                    if failure == 0 {
+                        if let Some(i) = texts.iter().position(|t| t.as_slice() == suf) {
+                            failure = i as u32;
+                        }
+                    }
+                    if let Some(e) = key_chars.iter().position(|k| k.as_slice() == suf) {
+                        inherited.push(e as u32);
+                    }
+                }
+            }
+            if inherit {
+                out.extend(failure.to_le_bytes());
+                out.extend((node.children.len() as u32).to_le_bytes());
+                for (c, n) in node.children.iter().rev() {
+                    out.extend(self.cidx(*c).to_le_bytes());
+                    out.extend((*n as u32).to_le_bytes());
+                }
+                let own: Vec<u32> = node.entry.iter().map(|&e| e as u32).collect();
+                out.extend(((own.len() + inherited.len()) as u32).to_le_bytes());
+                for e in own.iter().chain(inherited.iter()) {
+                    out.extend(e.to_le_bytes());
+                }
+                out.push(node.entry.is_some() as u8);
+                continue;
+            }
             out.extend(0u32.to_le_bytes()); // failure
             out.extend((node.children.len() as u32).to_le_bytes());
             // gotos are written in DESCENDING order on purpose: the reader sorts them
@@ -266,9 +309,9 @@ impl AbsKytea {
         out.extend(1.0f64.to_le_bytes()); // multiplier
         out.push(1); // feature lookup active
         let ckeys: Vec<String> = self.char_ngrams.iter().map(|x| x.0.clone()).collect();
-        self.put_dictionary(&mut out, 0, &ckeys, |o, i| Self::put_i16s(o, &self.char_ngrams[i].1));
+        self.put_dictionary_ac(&mut out, 0, &ckeys, j, |o, i| Self::put_i16s(o, &self.char_ngrams[i].1));
         let tkeys: Vec<String> = self.type_ngrams.iter().map(|x| x.0.replace('4', "\u{4}")).collect();
-        self.put_dictionary(&mut out, 0, &tkeys, |o, i| Self::put_i16s(o, &self.type_ngrams[i].1));
+        self.put_dictionary_ac(&mut out, 0, &tkeys, j, |o, i| Self::put_i16s(o, &self.type_ngrams[i].1));
         if j && jr.chance(2, 3) {
             // self dictionary with entries (read and ignored)
             let keys = self.junk_keys(&mut jr, 4);
@@ -338,7 +381,7 @@ impl AbsKytea {
             }
             entries.push(o);
         }
-        self.put_dictionary(&mut out, self.n_dicts, &wkeys, |o, i| o.extend(&entries[i]));
+        self.put_dictionary_ac(&mut out, self.n_dicts, &wkeys, j, |o, i| o.extend(&entries[i]));
         if j && jr.chance(2, 3) {
             // subword dictionary of ProbTagEntry (read and ignored)
             let keys = self.junk_keys(&mut jr, 4);
